@@ -224,6 +224,14 @@ def run(prop, tier):
                          "harness aborted (rc=%d): sanitizer report or crash while driving the real RotatingFileSink" % rc)
         process(out, "gen seed=%d" % sd)
 
+    # proof side broken or correspondence lost, and no failing input yet: search harder before giving up
+    if (ps["broken"] or st["mism"]) and not st["hits"] and tier == "quick":
+        for sd in (ck.seed + 500, ck.seed + 501, ck.seed + 502):
+            rc, out = vlib.sh([hbin, "gen", str(sd), "150", "60", prop], env=vlib.ASAN_ENV, timeout=3000)
+            process(out, "gen (deeper search) seed=%d" % sd)
+            if st["hits"]:
+                break
+
     # ---- verdicts --------------------------------------------------------------------------------
     if st["hits"]:
         # prefer a hit outside every finding class; otherwise the first unlisted finding
